@@ -45,6 +45,17 @@ def boundOk (cfg : Config) (h : List Nat) : Bool :=
       | some ti => ((i + 1 : Nat) : Rat) ≤ (cfg.burst : Rat) + (cfg.rate : Rat) * (secs t0 - secs ti)
       | none => true
 
+/-- the same oracle for clock readings in nanoseconds, with a tolerance of 10⁻⁶ token for the f64
+rounding of the refill (off the dyadic grid the implementation's sums are not exact) -/
+def boundOkNs (cfg : Config) (h : List Nat) : Bool :=
+  match h with
+  | [] => true
+  | t0 :: _ =>
+    (List.range h.length).all fun i =>
+      match h[i]? with
+      | some ti => ((i + 1 : Nat) : Rat) ≤ (cfg.burst : Rat) + (cfg.rate : Rat) * (((t0 - ti : Nat) : Rat) / 1000000000) + 1 / 1000000
+      | none => true
+
 def step (st : St) (line : String) : St × String :=
   let (op, impl?) := splitCase line
   let impl := impl?.getD ""
@@ -91,6 +102,21 @@ def step (st : St) (line : String) : St × String :=
           if same && keys == tr then (st', "ok")
           else (st', s!"DIFF model={fmtRes res} ev={fmtSet ev} tr={fmtSet keys}")
     | _, _, _, _ => (st, "BADLINE")
+  | ["checkns", c, ns] =>
+    match c.toNat?, ns.toNat?, (field iw "tr=").bind parseSet with
+    | some c, some ns, some tr =>
+      let admitted := iw.head? == some "A"
+      let hist0 := st.hist.filter fun (k, _) => tr.contains k
+      let hc := ((hist0.lookup c).getD [])
+      let hc' := if admitted then ns :: hc else hc
+      let hist' := (c, hc') :: hist0.filter (·.1 ≠ c)
+      let st' : St := { st with hist := if tr.contains c then hist' else hist0 }
+      if iw.head? == some "panic" then
+        (st', s!"JUDGE C30 check panicked (config rate={st.lim.cfg.rate} burst={st.lim.cfg.burst} cap={st.lim.cfg.cap})")
+      else if admitted && !boundOkNs st.lim.cfg hc' then
+        (st', s!"JUDGE C30 client {c} admitted more than burst + rate*T (+1e-6) in a window ending at {ns} ns: admitted at {hc'}")
+      else (st', "ok")
+    | _, _, _ => (st, "BADLINE")
   | ["cleanup", tick, age] =>
     match tick.toNat?, age.toNat?, (field iw "tr=").bind parseSet with
     | some tick, some age, some tr =>
